@@ -367,3 +367,31 @@ Proof.
 Qed.
 
 
+
+
+(* ---------- a common change of the body frame (right-multiplication of every pose of both trajectories by one rigid T)
+   conjugates the RPE error pose, so the rotation-angle and rotation-part values do not depend on the body frame ---------- *)
+Lemma prel_right (a b t : PoseR) : Orth (prot a) -> prel (pmul a t) (pmul b t) = pmul (pinv t) (pmul (prel a b) t).
+Proof. intros O. unfold prel. rewrite pinv_pmul by exact O. now rewrite !pmul_assoc. Qed.
+Lemma rpe_base_right (Qi Qj Pi Pj t : PoseR) : Orth (prot Qi) -> Orth (prot Qj) -> Orth (prot Pi) -> Orth (prot t) ->
+  rpe_base (pmul Qi t) (pmul Qj t) (pmul Pi t) (pmul Pj t) = pmul (pinv t) (pmul (rpe_base Qi Qj Pi Pj) t).
+Proof.
+  intros OQi OQj OPi Ot. unfold rpe_base, relative_se3. rewrite (prel_right Qi Qj t OQi), (prel_right Pi Pj t OPi).
+  set (Q := prel Qi Qj). set (P := prel Pi Pj).
+  assert (OQ : Orth (prot Q)) by (apply prel_Orth; assumption).
+  unfold prel. rewrite pinv_pmul by (cbn [pinv prot]; now apply Orth_mt).
+  rewrite pinv_pmul by exact OQ. rewrite pinv_pinv by exact Ot.
+  rewrite !pmul_assoc. f_equal. f_equal. rewrite <- !pmul_assoc. rewrite (pinv_right t Ot), pmul_I_l. reflexivity.
+Qed.
+Theorem rpe_rotation_values_body_frame_invariant (Qi Qj Pi Pj t : PoseR) rel :
+  Orth (prot Qi) -> Orth (prot Qj) -> Orth (prot Pi) -> Orth (prot t) ->
+  rel = rotation_angle_rad \/ rel = rotation_angle_deg ->
+  reduceR rel (rpe_base (pmul Qi t) (pmul Qj t) (pmul Pi t) (pmul Pj t)) = reduceR rel (rpe_base Qi Qj Pi Pj).
+Proof.
+  intros OQi OQj OPi Ot Hrel. rewrite rpe_base_right by assumption.
+  set (E := rpe_base Qi Qj Pi Pj).
+  assert (A : angleR (prot (pmul (pinv t) (pmul E t))) = angleR (prot E)).
+  { cbn [pmul pinv prot]. rewrite <- mm_assoc.
+    rewrite <- (mt_mt (prot t)) at 2. apply angle_conjugation_invariant. now apply Orth_mt. }
+  destruct Hrel as [-> | ->]; unfold reduce_pose; now rewrite A.
+Qed.
